@@ -35,7 +35,7 @@ func init() {
 		Race:      true,
 		RaceFiles: []string{"serveconn.go", "sfilesys.go", "ssesssion.go"},
 		Shards:    shards(8, 16),
-		Timeout:   timeouts(4*time.Minute, 40*time.Minute),
+		Timeout:   timeouts(12*time.Minute, 90*time.Minute),
 		MinEvals:  200,
 		Required:  []string{"fault:read-error", "fault:read-eof", "fault:write-fail", "fault:write-fail-parked", "fault:ctx-cancel", "fault:ctx-cancel-writer-busy", "read_error_as_net_error", "late_completion_of_flushed_request", "ctx_cancelled_while_writer_busy", "auth_fids_at_stop", "inflight:error-on-cancel", "inflight:succeed-after-cancel", "inflight:none", "handlers_in_flight_at_fault", "ctx_done_checks", "serve_returned", "stop_once", "tables_empty", "entries_bound_after_cancel"},
 		Run:       runC11,
